@@ -1,6 +1,7 @@
 import VlsModel.Model.MutualClose
 import VlsModel.Gen.FnSimple
 import VlsModel.Gen.FnEnforceVal
+import VlsModel.Gen.FnSimpleClose
 import VlsModel.Lemmas.FnGen
 /-
 C07 — the epsilon comparisons of the mutual-close model (`MutualClose.outsideEps`, `minToHolder`,
@@ -57,5 +58,239 @@ theorem C07_fn_minimum_to_counterparty_value (e : EState) (eps : Nat) :
     by_cases b : hi.toCountersigner - ci.toBroadcaster ≤ eps <;> simp [a, a', b, Rs.usub] <;> omega
   · have a' : hi.toCountersigner ≤ ci.toBroadcaster := Nat.le_of_not_lt a
     by_cases b : ci.toBroadcaster - hi.toCountersigner ≤ eps <;> simp [a, a', b, Rs.usub] <;> omega
+
+/-! ## Round 8: the whole of `SimpleValidator::validate_mutual_close_tx`
+
+Generated area `Gen.FnSimpleClose` (`translate/x_fn.py`).  Externals of the generated function: the policy filter
+(`policy_filter_err`, closed by `C05_fn_policy_filter`), the wallet (`can_spend`, `allowlist_contains` on an opaque
+`Wallet`), and the weight of the closing transaction LDK builds (`ext_let_weight`).  Scripts are an opaque type with
+decidable equality: instantiated by the model's script identities. -/
+
+def toV3 (p : Policy) : Gen.FnSimpleClose.SimpleValidator :=
+  { policy := { epsilon_sat := p.epsilon, min_feerate_per_kw := p.minFeerate, max_feerate_per_kw := p.maxFeerate } }
+
+def toCS3 (s : Setup) : Gen.FnSimpleClose.ChannelSetup Nat :=
+  { is_outbound := s.isOutbound, channel_value_sat := s.channelValue, holder_shutdown_script := s.upfront }
+
+def toCI3 (i : Info) : Gen.FnSimpleClose.CommitmentInfo2 :=
+  { to_countersigner_value_sat := i.toCountersigner, to_broadcaster_value_sat := i.toBroadcaster,
+    offered_htlcs := i.offered.map (fun _ => ⟨⟩), received_htlcs := i.received.map (fun _ => ⟨⟩) }
+
+def toES3 (e : EState) : Gen.FnSimpleClose.EnforcementState :=
+  { current_holder_commit_info := e.curHolderInfo.map toCI3,
+    current_counterparty_commit_info := e.curCpInfo.map toCI3 }
+
+def filt (p : Policy) : String → Bool := fun tag => filterEval p.filter tag == .error
+
+/-- the refusal class of every tag `validate_mutual_close_tx` can raise (`Tag.kind` of the model) -/
+def kindOfTag (s : String) : Kind :=
+  if s = "policy-mutual-value-matches-commitment" then .value
+  else if s = "policy-mutual-destination-allowlisted" then .dest
+  else if s = "policy-mutual-no-pending-htlcs" then .htlcs
+  else if s = "policy-mutual-fee-range" then .fee
+  else .other
+
+def relK {α : Type} : Rs.M α → Except Kind α
+  | .ok a => .ok a
+  | .error (.err s) => .error (kindOfTag s)
+  | .error _ => .error .panic
+
+theorem relK_bind {α β : Type} (x : Rs.M α) (f : α → Rs.M β) :
+    relK (x >>= f) = relK x >>= fun a => relK (f a) := by
+  cases x with
+  | ok a => rfl
+  | error e => cases e <;> rfl
+
+@[simp] theorem relK_ok {α : Type} (a : α) : relK (Except.ok a : Rs.M α) = Except.ok a := rfl
+@[simp] theorem relK_pure {α : Type} (a : α) : relK (pure a : Rs.M α) = pure a := rfl
+
+theorem relK_ite_policy {α : Type} (p : Policy) (t : Tag) (tag : String) (ht : tag = t.name) (hk : kindOfTag tag = t.kind)
+    (c : Bool) (R : Rs.M α) :
+    relK (if c = true then (do Rs.policyErr (filt p) tag; R) else R) = (do check p t c; relK R) := by
+  subst ht
+  unfold Rs.policyErr check policyErr errs filt
+  cases c <;> by_cases h : filterEval p.filter t.name = Gen.Policy.Action.error <;>
+    simp [h, relK, Rs.fail, hk, bind, Except.bind, pure, Except.pure]
+
+theorem relK_validate_fee (p : Policy) (sumIn sumOut weight : Nat) (hw : weight ≠ 0) (hin : sumIn ≤ Rs.U64_MAX) :
+    relK ((toV3 p).validate_fee (filt p) "policy-mutual-fee-range" sumIn sumOut weight)
+      = validateFee p .mutualFeeRange sumIn sumOut weight := by
+  unfold Gen.FnSimpleClose.SimpleValidator.validate_fee validateFee hard check policyErr errs Rs.policyErr exactFeerate
+  simp only [toV3, filt, Rs.okOr, Rs.ucheckedSub, Tag.name]
+  by_cases h1 : sumOut ≤ sumIn
+  · have h1' : ¬ sumIn < sumOut := Nat.not_lt.mpr h1
+    have hm := (Rs.fee_rate_fits (sumIn - sumOut) (Nat.le_trans (Nat.sub_le _ _) hin)).1
+    have ha := (Rs.fee_rate_fits (sumIn - sumOut) (Nat.le_trans (Nat.sub_le _ _) hin)).2
+    simp only [h1, h1', if_true, Rs.umul, hm, Rs.uadd, ha, Rs.udiv, hw, if_false, Rs.bind_ok, Rs.pure_eq,
+      decide_false]
+    by_cases h2 : ((sumIn - sumOut) * 1000 + 999) / weight < p.minFeerate <;>
+      by_cases h3 : ((sumIn - sumOut) * 1000 + 999) / weight > p.maxFeerate <;>
+      by_cases h4 : filterEval p.filter "policy-mutual-fee-range" = Gen.Policy.Action.error <;>
+      simp [h2, h3, h4, relK, kindOfTag, Tag.kind, Rs.fail, bind, Except.bind, pure, Except.pure]
+  · have h1' : sumIn < sumOut := Nat.lt_of_not_le h1
+    simp [h1, h1', relK, kindOfTag, Rs.fail, bind, Except.bind]
+
+/-- `outside_epsilon_range` of the area `SimpleClose` (same source function as `C07_fn_outside_epsilon_range`) -/
+theorem outside_eps_eq (p : Policy) (v0 v1 : Nat) :
+    (toV3 p).outside_epsilon_range v0 v1
+      = .ok (outsideEps p v0 v1, if v0 > v1 then "larger" else "smaller") := by
+  unfold Gen.FnSimpleClose.SimpleValidator.outside_epsilon_range outsideEps
+  by_cases h : v0 > v1
+  · have h' : v1 ≤ v0 := Nat.le_of_lt h
+    simp [h, h', Rs.usub, toV3]
+  · have h' : v0 ≤ v1 := Nat.le_of_not_lt h
+    simp [h, h', Rs.usub, toV3]
+
+theorem htlcs_is_empty_eq (i : Info) : Gen.FnSimpleClose.CommitmentInfo2.htlcs_is_empty (toCI3 i) = i.htlcsEmpty := by
+  unfold Gen.FnSimpleClose.CommitmentInfo2.htlcs_is_empty Info.htlcsEmpty
+  simp [toCI3]
+
+theorem closeWeight_pos (a : Args) : closeWeight a ≠ 0 := by
+  unfold closeWeight
+  simp only []
+  omega
+
+theorem toES3_h (e : EState) : (toES3 e).current_holder_commit_info = e.curHolderInfo.map toCI3 := rfl
+theorem toES3_c (e : EState) : (toES3 e).current_counterparty_commit_info = e.curCpInfo.map toCI3 := rfl
+theorem toCS3_out (s : Setup) : (toCS3 s).is_outbound = s.isOutbound := rfl
+theorem toCS3_val (s : Setup) : (toCS3 s).channel_value_sat = s.channelValue := rfl
+theorem toCS3_up (s : Setup) : (toCS3 s).holder_shutdown_script = s.upfront := rfl
+theorem toCI3_cs (i : Info) : (toCI3 i).to_countersigner_value_sat = i.toCountersigner := rfl
+theorem toCI3_br (i : Info) : (toCI3 i).to_broadcaster_value_sat = i.toBroadcaster := rfl
+
+theorem okOr_some {α : Type} (x : α) (tag : String) : Rs.okOr (some x) tag = Except.ok x := rfl
+
+theorem relK_checked_add (a b : Nat) :
+    relK (Rs.okOr (Rs.ucheckedAdd Rs.U64_MAX a b) "policy-mutual-value-matches-commitment")
+      = (do hard .value (decide (a + b > U64.MAX)); pure (a + b)) := by
+  by_cases h : a + b ≤ 18446744073709551615
+  · have hgt : ¬ 18446744073709551615 < a + b := by omega
+    simp [h, hgt, Rs.okOr, Rs.ucheckedAdd, Rs.U64_MAX, U64.MAX, hard, relK, kindOfTag, Rs.fail, bind, Except.bind, pure,
+      Except.pure]
+  · have hgt : 18446744073709551615 < a + b := by omega
+    simp [h, hgt, Rs.okOr, Rs.ucheckedAdd, Rs.U64_MAX, U64.MAX, hard, relK, kindOfTag, Rs.fail, bind, Except.bind, pure,
+      Except.pure]
+
+theorem relK_policyErr (p : Policy) (t : Tag) (tag : String) (ht : tag = t.name) (hk : kindOfTag tag = t.kind) :
+    relK (Rs.policyErr (filt p) tag) = check p t true := by
+  subst ht
+  unfold Rs.policyErr check policyErr errs filt
+  by_cases h : filterEval p.filter t.name = Gen.Policy.Action.error <;>
+    simp [h, relK, Rs.fail, hk, pure, Except.pure]
+
+theorem ok_bind_K {α β : Type} (a : α) (f : α → Except Kind β) : ((Except.ok a : Except Kind α) >>= f) = f a := rfl
+
+theorem check_false (p : Policy) (t : Tag) : check p t false = Except.ok () := rfl
+
+theorem bind_unit_ok (x : Except Kind Unit) : (x >>= fun _ => (Except.ok () : Except Kind Unit)) = x := by
+  cases x <;> rfl
+
+theorem bne_dec (x y : Option Nat) : (x != y) = !decide (x = y) := by
+  by_cases h : x = y <;> simp [h]
+
+/-- **`SimpleValidator::validate_mutual_close_tx`, the whole function** = the model's `validateMutualClose`, outcome
+    by outcome, for every policy / filter / setup / pair of current commitments / close arguments.  Hypotheses: the
+    wallet answers for the holder script are the ones recorded in the model's `Out` (`can_spend` does not fail), the
+    weight of the LDK-built closing transaction is `closeWeight`, the channel value is a `u64`. -/
+theorem C07_fn_validate_mutual_close_tx {W D : Type} (p : Policy) (s : Setup) (e : EState) (a : Args)
+    (w : W) (path : D)
+    (extW : Nat → Nat → Option Nat → Option Nat → Gen.FnSimpleClose.ChannelSetup Nat → Nat)
+    (extC : W → D → Nat → Option Bool) (extA : W → Nat → D → Bool)
+    (hW : extW a.toHolder a.toCounterparty (a.holderScript.map (·.sid)) (a.cpScript.map (·.sid)) (toCS3 s) = closeWeight a)
+    (hC : ∀ o, a.holderScript = some o → extC w path o.sid = some o.canSpend)
+    (hA : ∀ o, a.holderScript = some o → extA w o.sid path = o.allowlisted)
+    (hv : s.channelValue ≤ Rs.U64_MAX) :
+    relK (Gen.FnSimpleClose.SimpleValidator.validate_mutual_close_tx (filt p) extW extC extA (toV3 p) w (toCS3 s) (toES3 e)
+            a.toHolder a.toCounterparty (a.holderScript.map (·.sid)) (a.cpScript.map (·.sid)) path)
+      = validateMutualClose p s e a := by
+  have hfee := fun so => relK_validate_fee p s.channelValue so _ (closeWeight_pos a) hv
+  have e1 : ∀ {α : Type} (cc : Bool) (R : Rs.M α), _ := fun {α} cc R =>
+    relK_ite_policy (α := α) p .mutualDestinationAllowlisted "policy-mutual-destination-allowlisted" rfl
+      (by simp [kindOfTag, Tag.kind]) cc R
+  have e2 : ∀ {α : Type} (cc : Bool) (R : Rs.M α), _ := fun {α} cc R =>
+    relK_ite_policy (α := α) p .mutualNoPendingHtlcs "policy-mutual-no-pending-htlcs" rfl
+      (by simp [kindOfTag, Tag.kind]) cc R
+  have e3 : ∀ {α : Type} (cc : Bool) (R : Rs.M α), _ := fun {α} cc R =>
+    relK_ite_policy (α := α) p .mutualValueMatches "policy-mutual-value-matches-commitment" rfl
+      (by simp [kindOfTag, Tag.kind]) cc R
+  have q1 := relK_policyErr p .mutualDestinationAllowlisted "policy-mutual-destination-allowlisted" rfl
+    (by simp [kindOfTag, Tag.kind])
+  have q3 := relK_policyErr p .mutualValueMatches "policy-mutual-value-matches-commitment" rfl
+    (by simp [kindOfTag, Tag.kind])
+  unfold Gen.FnSimpleClose.SimpleValidator.validate_mutual_close_tx validateMutualClose
+  cases hh : e.curHolderInfo with
+  | none => simp [toES3_h, hh, Rs.okOr, relK, kindOfTag, Rs.fail, bind, Except.bind]
+  | some hi =>
+    cases hc : e.curCpInfo with
+    | none => simp [toES3_h, toES3_c, hh, hc, Rs.okOr, relK, kindOfTag, Rs.fail, bind, Except.bind]
+    | some ci =>
+      simp only [toES3_h, toES3_c, hh, hc, Option.map_some, okOr_some, Rs.bind_ok, toCS3_out, toCS3_val, toCS3_up,
+        toCI3_cs, toCI3_br, htlcs_is_empty_eq, outside_eps_eq, hW, validateMutualCloseWith]
+      cases ha : a.holderScript with
+      | none =>
+        by_cases hup : (s.upfront.isSome && decide (a.toHolder > 0)) = true <;> by_cases ho : s.isOutbound = true
+        · cases hb1 : outsideEps p a.toCounterparty ci.toBroadcaster <;>
+            cases hb2 : outsideEps p a.toCounterparty hi.toCountersigner <;>
+            simp only [ha, hup, ho, hb1, hb2, Option.map_none, Option.map_some, Option.isNone_none, Option.isNone_some, if_true, if_false, Bool.false_eq_true, valueChecks, destCheck, whenE, okOr_some, Rs.bind_ok, pure_bind, Bool.and_true, Bool.and_false] <;>
+            simp only [e1, e2, e3, q1, q3, relK_bind, relK_checked_add, hfee, relK_ok, relK_pure, bind_assoc, pure_bind] <;>
+            (simp [check_false, bind_unit_ok, bne_dec, ok_bind_K]; try rfl)
+        · cases hb1 : outsideEps p a.toHolder hi.toBroadcaster <;>
+            cases hb2 : outsideEps p a.toHolder ci.toCountersigner <;>
+            simp only [ha, hup, ho, hb1, hb2, Option.map_none, Option.map_some, Option.isNone_none, Option.isNone_some, if_true, if_false, Bool.false_eq_true, valueChecks, destCheck, whenE, okOr_some, Rs.bind_ok, pure_bind, Bool.and_true, Bool.and_false] <;>
+            simp only [e1, e2, e3, q1, q3, relK_bind, relK_checked_add, hfee, relK_ok, relK_pure, bind_assoc, pure_bind] <;>
+            (simp [check_false, bind_unit_ok, bne_dec, ok_bind_K]; try rfl)
+        · cases hb1 : outsideEps p a.toCounterparty ci.toBroadcaster <;>
+            cases hb2 : outsideEps p a.toCounterparty hi.toCountersigner <;>
+            simp only [ha, hup, ho, hb1, hb2, Option.map_none, Option.map_some, Option.isNone_none, Option.isNone_some, if_true, if_false, Bool.false_eq_true, valueChecks, destCheck, whenE, okOr_some, Rs.bind_ok, pure_bind, Bool.and_true, Bool.and_false] <;>
+            simp only [e1, e2, e3, q1, q3, relK_bind, relK_checked_add, hfee, relK_ok, relK_pure, bind_assoc, pure_bind] <;>
+            (simp [check_false, bind_unit_ok, bne_dec, ok_bind_K]; try rfl)
+        · cases hb1 : outsideEps p a.toHolder hi.toBroadcaster <;>
+            cases hb2 : outsideEps p a.toHolder ci.toCountersigner <;>
+            simp only [ha, hup, ho, hb1, hb2, Option.map_none, Option.map_some, Option.isNone_none, Option.isNone_some, if_true, if_false, Bool.false_eq_true, valueChecks, destCheck, whenE, okOr_some, Rs.bind_ok, pure_bind, Bool.and_true, Bool.and_false] <;>
+            simp only [e1, e2, e3, q1, q3, relK_bind, relK_checked_add, hfee, relK_ok, relK_pure, bind_assoc, pure_bind] <;>
+            (simp [check_false, bind_unit_ok, bne_dec, ok_bind_K]; try rfl)
+      | some o =>
+        have hC' := hC o ha
+        have hA' := hA o ha
+        by_cases hup : (s.upfront.isSome && decide (a.toHolder > 0)) = true <;> by_cases ho : s.isOutbound = true
+        · cases hb1 : outsideEps p a.toCounterparty ci.toBroadcaster <;>
+            cases hb2 : outsideEps p a.toCounterparty hi.toCountersigner <;>
+            simp only [ha, hup, ho, hb1, hb2, Option.map_none, Option.map_some, Option.isNone_none, Option.isNone_some, if_true, if_false, Bool.false_eq_true, valueChecks, destCheck, whenE, okOr_some, Rs.bind_ok, pure_bind, Bool.and_true, Bool.and_false, hC', hA'] <;>
+            simp only [e1, e2, e3, q1, q3, relK_bind, relK_checked_add, hfee, relK_ok, relK_pure, bind_assoc, pure_bind] <;>
+            (simp [check_false, bind_unit_ok, bne_dec, ok_bind_K]; try rfl)
+        · cases hb1 : outsideEps p a.toHolder hi.toBroadcaster <;>
+            cases hb2 : outsideEps p a.toHolder ci.toCountersigner <;>
+            simp only [ha, hup, ho, hb1, hb2, Option.map_none, Option.map_some, Option.isNone_none, Option.isNone_some, if_true, if_false, Bool.false_eq_true, valueChecks, destCheck, whenE, okOr_some, Rs.bind_ok, pure_bind, Bool.and_true, Bool.and_false, hC', hA'] <;>
+            simp only [e1, e2, e3, q1, q3, relK_bind, relK_checked_add, hfee, relK_ok, relK_pure, bind_assoc, pure_bind] <;>
+            (simp [check_false, bind_unit_ok, bne_dec, ok_bind_K]; try rfl)
+        · cases hb1 : outsideEps p a.toCounterparty ci.toBroadcaster <;>
+            cases hb2 : outsideEps p a.toCounterparty hi.toCountersigner <;>
+            simp only [ha, hup, ho, hb1, hb2, Option.map_none, Option.map_some, Option.isNone_none, Option.isNone_some, if_true, if_false, Bool.false_eq_true, valueChecks, destCheck, whenE, okOr_some, Rs.bind_ok, pure_bind, Bool.and_true, Bool.and_false, hC', hA'] <;>
+            simp only [e1, e2, e3, q1, q3, relK_bind, relK_checked_add, hfee, relK_ok, relK_pure, bind_assoc, pure_bind] <;>
+            (simp [check_false, bind_unit_ok, bne_dec, ok_bind_K]; try rfl)
+        · cases hb1 : outsideEps p a.toHolder hi.toBroadcaster <;>
+            cases hb2 : outsideEps p a.toHolder ci.toCountersigner <;>
+            simp only [ha, hup, ho, hb1, hb2, Option.map_none, Option.map_some, Option.isNone_none, Option.isNone_some, if_true, if_false, Bool.false_eq_true, valueChecks, destCheck, whenE, okOr_some, Rs.bind_ok, pure_bind, Bool.and_true, Bool.and_false, hC', hA'] <;>
+            simp only [e1, e2, e3, q1, q3, relK_bind, relK_checked_add, hfee, relK_ok, relK_pure, bind_assoc, pure_bind] <;>
+            (simp [check_false, bind_unit_ok, bne_dec, ok_bind_K]; try rfl)
+
+/-! ### non-vacuity: a concrete, accepted close (funder, both outputs present, wallet-spendable holder script) -/
+
+def exPolicy : Policy := { Gen.Policy.defaultTestnet with onchain := false }
+def exSetup : Setup := ⟨true, 3000000, 0, 6, 7, .staticRemoteKey, none, false, false⟩
+def exState : EState :=
+  { EState.init with curHolderInfo := some ⟨false, 1999000, 1000000, [], [], 0⟩,
+                     curCpInfo := some ⟨true, 1000000, 1999000, [], [], 0⟩, nextHolder := 2, nextCp := 2, nextRevoke := 1 }
+def exArgs : Args := ⟨1998000, 1000000, some ⟨1998000, 3, 22, 5, true, false⟩, some ⟨1000000, 20, 22, 9, false, false⟩⟩
+
+/-- the generated `validate_mutual_close_tx` with a wallet that can spend script 3 and a weight oracle returning
+    `closeWeight`: same verdict as the model -/
+example :
+    relK (Gen.FnSimpleClose.SimpleValidator.validate_mutual_close_tx (filt exPolicy)
+            (fun _ _ _ _ _ => closeWeight exArgs) (fun _ _ sid => some (sid == 3)) (fun _ _ _ => false)
+            (toV3 exPolicy) () (toCS3 exSetup) (toES3 exState) 1998000 1000000 (some 3) (some 20) ())
+      = validateMutualClose exPolicy exSetup exState exArgs :=
+  C07_fn_validate_mutual_close_tx exPolicy exSetup exState exArgs () () _ _ _ rfl
+    (fun o h => by cases h; rfl) (fun o h => by cases h; rfl) (by decide)
 
 end VlsModel.Props.C07Fn
